@@ -26,7 +26,7 @@ TORSION_DEF = {                # mirrors TorsionLattice!TorsionDef; the trace sp
 PURINES = ("A", "G", "DA", "DG")
 PYRIMIDINES = ("C", "U", "T", "DC", "DT")
 # corpus files (under $VERIF_REPO/tests): RNA structures with A-form stems, single model
-CORPUS_QUICK = ["1E7K_1_C.cif", "1DFU_1_M-N.cif", "4WTI_1_T-P.cif", "1ehz-assembly-1.cif", "1E7K_1_C.cif#drop0",
+CORPUS_QUICK = ["1E7K_1_C.cif", "1DFU_1_M-N.cif", "4WTI_1_T-P.cif", "1ehz-assembly-1.cif", "4qln.pdb", "2HY9.cif", "1E7K_1_C.cif#drop0",
                 "1DFU_1_M-N.cif#drop1"]
 CORPUS_THOROUGH = ["1E7K_1_C.cif", "1DFU_1_M-N.cif", "4WTI_1_T-P.cif", "1ehz-assembly-1.cif", "4qln.pdb",
                    "4qln.cif", "6FC9.cif", "184D.cif", "1JJP.cif", "1HMH_1_E.cif",
@@ -279,6 +279,21 @@ def record_corpus_file(name):
     df = parser_v2.parse_cif_atoms(text) if iscif else parser_v2.parse_pdb_atoms(text)
     st = tertiary_v2.Structure(df)
     table = st.torsion_angles
+    # atoms listed more than once inside the FIRST model (alternate locations, repeated names), from the raw rows:
+    # for every other atom both code paths have exactly one candidate, so they must use the same coordinates
+    if df.attrs.get("format") == "PDB":
+        cols = ("chainID", "resSeq", "iCode", "name", "model")
+    else:
+        cols = ("auth_asym_id", "auth_seq_id", "pdbx_PDB_ins_code", "auth_atom_id", "pdbx_PDB_model_num")
+    first_model = df[cols[4]].iloc[0] if len(df) else None
+    seen_atoms, ambiguous = set(), set()
+    for ch, num, ic, an, mo in zip(*(df[c] for c in cols)):
+        if mo != first_model:
+            continue
+        k = (str(ch), int(num), "" if ic is None or ic != ic or str(ic) in ("?", ".", "nan", "None") else str(ic), str(an))
+        if k in seen_atoms:
+            ambiguous.add(k)
+        seen_atoms.add(k)
     # path 1 index
     idx1, dup1 = {}, set()
     for r in s1.residues:
@@ -291,14 +306,19 @@ def record_corpus_file(name):
     # path 2: table rows are emitted segment by segment, residue by residue
     seq2 = [(seg, i) for seg in st.connected_residues for i in range(len(seg))]
     if len(seq2) != len(table):
-        raise lib.MachineryError(f"{name}: torsion table has {len(table)} rows for {len(seq2)} segment residues")
+        # the table of the code under test does not have one row per residue of its own segments: data
+        return {"file": name, "cases": [{"id": f"tor-{name}-table", "kind": "tor", "file": name, "res": "table",
+                                         "angle": "rows", "single": False, "atoms": [], "cls": "none", "t1": _absent(), "v2": _absent()}],
+                "rows1": [], "rows2": [], "skipped": 0}
     keys2 = [(seg[i].chain_id, seg[i].residue_number, seg[i].insertion_code or "") for seg, i in seq2]
     cases, rows1, rows2, skipped = [], [], [], 0
     for k, (seg, i) in enumerate(seq2):
         key = keys2[k]
         row = table.iloc[k]
         if (row["chain_id"], int(row["residue_number"]), row["insertion_code"] or "") != key:
-            raise lib.MachineryError(f"{name}: table row {k} is not residue {key}")
+            return {"file": name, "cases": [{"id": f"tor-{name}-table", "kind": "tor", "file": name, "res": "table",
+                                             "angle": "rows", "single": False, "atoms": [], "cls": "none", "t1": _absent(), "v2": _absent()}],
+                    "rows1": [], "rows2": [], "skipped": 0}
         if keys2.count(key) > 1 or key in dup1:
             skipped += 1
             continue
@@ -344,8 +364,9 @@ def record_corpus_file(name):
             if not p1["present"] and not p2["present"] and not (p1["asked"] or p2["asked"]):
                 continue
             meas[col] = (p1, p2)
+            single = all(0 <= i + o < len(seg) and (keys2[k + o] + (a,)) not in ambiguous for a, o in d)
             cases.append({"id": f"tor-{name}-{key[0]}.{key[1]}{key[2]}-{angle}", "kind": "tor", "file": name,
-                          "res": f"{key[0]}.{rname}{key[1]}{key[2]}", "angle": angle,
+                          "res": f"{key[0]}.{rname}{key[1]}{key[2]}", "angle": angle, "single": bool(single),
                           "atoms": [[a, o] for a, o in d], "cls": cls, "t1": p1, "v2": p2})
         if "delta" in meas and "chi" in meas:
             for which, rows in ((0, rows1), (1, rows2)):
@@ -354,6 +375,59 @@ def record_corpus_file(name):
                         and not ch["res"]["nan"] and ch["res"]["err"] == "":
                     rows.append([dl["ref"]["v"], ch["ref"]["v"], ch["res"]["v"]])
     return {"file": name, "cases": cases, "rows1": rows1, "rows2": rows2, "skipped": skipped}
+
+
+STEM_FILES_QUICK = ["1ehz-assembly-1.cif", "4qln.pdb"]
+STEM_FILES_THOROUGH = ["1ehz-assembly-1.cif", "4qln.pdb", "8btk_B7.cif", "6g90_1.cif", "1E7K_1_C.cif", "4gqj-assembly1.cif"]
+STEM_TYPES = ("cs55", "cs53", "cs35", "cs33")
+
+
+def _stem_points(kind, c1, c2):
+    """the four centroids the inter-stem torsion is taken over, per closest-endpoint type (as documented in
+    Mapping2D3D.calculate_inter_stem_parameters): second / first of stem 1's near end, first / second of stem 2's"""
+    a = (c1[1], c1[0]) if kind[2] == "5" else (c1[-2], c1[-1])
+    b = (c2[0], c2[1]) if kind[3] == "5" else (c2[-1], c2[-2])
+    return [a[0], a[1], b[0], b[1]]
+
+
+def record_stem_file(name):
+    """Inter-stem torsions of one corpus structure: every pair of stems (>= 2 pairs each) through
+    Mapping2D3D.calculate_inter_stem_parameters, in both argument orders, with the base-pair centroids the
+    library itself reports (get_stem_coordinates) and the measurer's dihedral for each of the four possible
+    endpoint types."""
+    import itertools
+    import tempfile
+    from rnapolis import annotator, parser
+    from rnapolis.tertiary import Mapping2D3D
+    with open(os.path.join(lib.REPO, "tests", name)) as f:
+        s3 = parser.read_3d_structure(f)
+    bi = annotator.extract_base_interactions(s3)
+    mapping = Mapping2D3D(s3, bi.basePairs, bi.stackings, False)
+    stems = mapping.bpseq.elements[0]
+    cases = []
+    for i, j in itertools.combinations(range(len(stems)), 2):
+        c1 = [np.asarray(x, dtype=float) for x in mapping.get_stem_coordinates(stems[i])]
+        c2 = [np.asarray(x, dtype=float) for x in mapping.get_stem_coordinates(stems[j])]
+        if len(c1) < 2 or len(c2) < 2:
+            continue
+        ends = {"cs55": (c1[0], c2[0]), "cs53": (c1[0], c2[-1]), "cs35": (c1[-1], c2[0]), "cs33": (c1[-1], c2[-1])}
+        case = {"id": f"stem-{name}-{i}-{j}", "kind": "stem", "file": name, "i": i, "j": j,
+                "dist": {k: int(round(float(np.linalg.norm(a - b)) * 1000)) for k, (a, b) in ends.items()},
+                "ref": {k: result(ref_torsion, *_stem_points(k, c1, c2)) for k in STEM_TYPES},
+                "fwd": {"err": "", "type": "", "res": {"err": "", "nan": False, "v": 0}},
+                "rev": {"err": "", "type": "", "res": {"err": "", "nan": False, "v": 0}}}
+        for key, (a, b) in (("fwd", (stems[i], stems[j])), ("rev", (stems[j], stems[i]))):
+            try:
+                r = mapping.calculate_inter_stem_parameters(a, b)
+                if r is None:
+                    case[key]["err"] = "None"
+                else:
+                    case[key]["type"] = str(r["type"])
+                    case[key]["res"] = result(lambda v=r["torsion_angle"]: math.radians(v))
+            except Exception as e:
+                case[key]["err"] = type(e).__name__
+        cases.append(case)
+    return cases
 
 
 def aform_case(rec):
